@@ -10,11 +10,10 @@ import (
 	"go/constant"
 	"go/token"
 	"go/types"
-		"strings"
+	"strings"
 	"unsafe"
 
 	"golang.org/x/tools/go/ssa"
-	
 )
 
 // If the target program panics, the interpreter panics with this type.
